@@ -8,3 +8,4 @@ ASSUMPTIONS = ["dynamic confirmation only: one small model per structure, one pa
                "(decay_group.sum_amp, build_params_vector, sum_with_polarization, get_m_dep), not at arbitrary byte-code positions"]
 
 from vt.contracts import iface_state  # noqa: F401,E402
+from vt.contracts import frames_c17  # noqa: F401,E402
